@@ -372,7 +372,7 @@ fn run_shard(ctx: &ShardCtx, acc: &mut Acc) {
     if ctx.shard == 0 {
         acc.sample(|| json!({ "domain": d.elems.iter().map(|(n, _)| n.clone()).collect::<Vec<_>>() }));
     }
-    let mut report = |r: CaseResult, acc: &mut Acc| {
+    let report = |r: CaseResult, acc: &mut Acc| {
         if let CaseResult::Fail(v) = r {
             if ctx.known.lookup(ctx.prop, &v.signature).is_some() {
                 *acc.known.entry(v.signature.clone()).or_default() += 1;
